@@ -12,23 +12,20 @@
 
 using namespace vh;
 using namespace randomx;
-static std::vector<std::vector<uint8_t>> g_blocks; static size_t g_next = 0;
-extern "C" int randomx_blake2b(void* out, size_t outlen, const void* in, size_t inlen, const void* key, size_t keylen) {
-	if (g_next >= g_blocks.size()) { fprintf(stderr, "script exhausted\n"); _exit(3); }
-	memcpy(out, g_blocks[g_next++].data(), 64);
-	return 0;
-}
+#include "ssx_stream.hpp"
 int main(int argc, char** argv) {
 	uint64_t seed = strtoull(arg(argc, argv, "--seed", "1"), nullptr, 10);
 	bool thorough = !strcmp(arg(argc, argv, "--tier", "quick"), "thorough");
 	int nstreams = atoi(arg(argc, argv, "--streams", thorough ? "640" : "48"));
+	int first = atoi(arg(argc, argv, "--first", "0"));
+	const char* pick = arg(argc, argv, "--pick", "");      // "seed:index,seed:index,..." replayed before the seeded ones
 	FILE* out = fopen(arg(argc, argv, "--out", "/dev/stdout"), "w");
-	Rng rng(seed);
-	static const uint8_t special[] = { 0, 0, 0, 1, 2, 4, 8, 16, 32, 64, 128, 255, 254, 3, 5, 127 };
-	for (int s = 0; s < nstreams; ++s) {
-		int style = s % 6; unsigned skew = style == 0 ? 0 : (style == 1 ? 30 : (style == 2 ? 60 : (style == 3 ? 85 : (style == 4 ? 95 : 100))));
-		g_blocks.clear(); g_next = 0;
-		for (int b = 0; b < 6000; ++b) { std::vector<uint8_t> blk(64); for (auto& x : blk) x = rng.below(100) < skew ? special[rng.below(16)] : (uint8_t)rng.next(); g_blocks.push_back(blk); }
+	std::vector<std::pair<uint64_t, int>> ids;
+	for (const char* c = pick; *c;) { char* e; uint64_t sd = strtoull(c, &e, 10); if (*e != ':') break; int ix = (int)strtol(e + 1, &e, 10); ids.push_back({ sd, ix }); c = *e == ',' ? e + 1 : e; }
+	for (int s = first; s < first + nstreams; ++s) ids.push_back({ seed, s });
+	for (auto& id : ids) {
+		unsigned style; int s = id.second;
+		make_stream(id.first, s, style);
 		uint8_t dummy[4] = { 0 };
 		Blake2Generator gen(dummy, 0);          // first request refills from the script
 		int nprogs = 1 + (s % 2);
@@ -45,7 +42,7 @@ int main(int argc, char** argv) {
 		std::string blocks = "[";
 		for (size_t b = 0; b < g_next; ++b) { if (b) blocks += ","; blocks += json_limbs(g_blocks[b].data(), 64); }
 		blocks += "]";
-		Line l; l.str("e", "ssx").num("skew", skew).num("used", (long long)g_next).raw("blocks", blocks).raw("progs", progs + "]"); l.emit(out);
+		Line l; l.str("e", "ssx").num("sseed", (long long)id.first).num("idx", s).num("skew", style).num("used", (long long)g_next).raw("blocks", blocks).raw("progs", progs + "]"); l.emit(out);
 	}
 	fclose(out);
 	return 0;
